@@ -227,7 +227,7 @@ class Ctx:
                  "solver_loop": "Proofs/GenEquivSL", "likelihood": "Proofs/GenEquivLK", "main_loop_results": "Proofs/GenEquivMR",
                  "front_single": "Proofs/GenEquivFE", "front_joint": "Proofs/GenEquivFE",
                  "cluster_maintenance": "Proofs/GenEquivCR", "graphical_lasso": "Proofs/GenEquivGL",
-                 "matrix_compression": "Proofs/GenEquivMC",
+                 "matrix_compression": "Proofs/GenEquivMC", "model_state": "Proofs/GenEquivMS",
                  "gl_optimize": "Proofs/GenEquivGO", "gl_setup": "Proofs/GenEquivGO", "gl_retrieve": "Proofs/GenEquivGO", "gl_update": "Proofs/GenEquivGO"}
         self.coq_deps = list(coq_deps) + [equiv[g] for g in self.gen]
         t_pl = time.time()
